@@ -1,169 +1,5 @@
-import HclModel.Expr.Rel
-import HclModel.Expr.FreeVars
+import HclModel.Expr.Taint
 /-!
-C19: the notions used in the statements about ghost taint.
-
-The flag `g` of a value node is the ghost taint: "this content entered the evaluation inside a marked value".
-It is not part of the Go values; the evaluator model carries it along wherever content is copied or
-derived, also where the mark itself is legitimately removed (`Unmark`, iteration over a marked collection).
-
-* `ghostWF false v` (in `HclModel/Expr/Rel.lean`): every node at or below a marked node is tainted
-  (how a secret enters a scope: nothing of it is forgotten);
-* `tw false v` (here): every tainted node is marked or lies below a marked node
-  (nothing tainted is exposed).  A scope satisfying both has `g` = exactly "at or below a mark".
-* `untainted v`: no node of `v` is tainted.
-* `fragsClean ds`: every fragment of every diagnostic in `ds` is untainted.
-
-The static analysis `vclean` / `fclean` is the side condition of the partial theorem: see `Props/C19.lean`.
+C19: the definitions (`tw`, `untainted`, `fragsClean`, `twEnv`, `exactEnv`, `TaintFuncs`, `vclean`, `fclean`,
+`simple`, `litsFree`) live in `HclModel/Expr/Taint.lean`, so that the driver can evaluate the side condition.
 -/
-namespace HclModel.Proofs
-
-mutual
-/-- `tw inh v`: every ghost-tainted node of `v` carries the mark or lies below a node that does
-    (`inh`: some enclosing node is marked) -/
-def tw : Bool → Val → Bool
-  | inh, .list f _ xs => (!f.g || (inh || f.m)) && twL (inh || f.m) xs
-  | inh, .tuple f xs => (!f.g || (inh || f.m)) && twL (inh || f.m) xs
-  | inh, .map f _ kvs => (!f.g || (inh || f.m)) && twF (inh || f.m) kvs
-  | inh, .object f kvs => (!f.g || (inh || f.m)) && twF (inh || f.m) kvs
-  | inh, .unk f _ => !f.g || (inh || f.m)
-  | inh, .null f _ => !f.g || (inh || f.m)
-  | inh, .str f _ => !f.g || (inh || f.m)
-  | inh, .num f _ => !f.g || (inh || f.m)
-  | inh, .bool f _ => !f.g || (inh || f.m)
-def twL : Bool → List Val → Bool
-  | _, [] => true
-  | inh, x :: xs => tw inh x && twL inh xs
-def twF : Bool → List (String × Val) → Bool
-  | _, [] => true
-  | inh, (_, x) :: xs => tw inh x && twF inh xs
-end
-
-/-- no node of the value is ghost-tainted -/
-def untainted (v : Val) : Bool := !(Val.flagsDeep v).g
-
-/-- no node of the value carries any flag (values written in the source text) -/
-def flagFree (v : Val) : Bool := !(Val.flagsDeep v).g && !(Val.flagsDeep v).m
-
-/-- every fragment (piece of run-time content echoed in the message) of every diagnostic is untainted -/
-def fragsClean (ds : List Diag) : Prop := ∀ d ∈ ds, ∀ f ∈ d.frags, untainted f = true
-
-/-- a scope in which nothing tainted is exposed -/
-def twEnv (ρ : Env) : Prop := ∀ p ∈ ρ, tw false p.2 = true
-
-/-- a scope in which the ghost taint is exactly "at or below a marked node" -/
-def exactEnv (ρ : Env) : Prop := ∀ p ∈ ρ, ghostWF false p.2 = true ∧ tw false p.2 = true
-
-/-- assumption on application-supplied functions: called with arguments that carry no taint at all,
-    an implementation does not return exposed taint (in particular: any implementation whose results carry
-    no flags, which is what `function.Call` hands back before it re-applies the marks of the arguments).
-    What the implementations put into their own error messages is outside the guarantee. -/
-def TaintFuncs (F : Funcs) : Prop :=
-  ∀ fn spec, F fn = some spec → ∀ args r, (∀ a ∈ args, untainted a = true) →
-    spec.impl args = .ok r → tw false r = true
-
-/-- the names in `L` except the iteration variables -/
-def dropIter (kv vv : String) (L : List String) : List String :=
-  L.filter fun x => !(iterNames kv vv).contains x
-
-mutual
-/-- `vclean L e`: the value of `e` exposes no taint, provided that the variables outside `L` do not
-    (`L`: the variables that may hold tainted, unmarked content).  The iteration variables of a `for` or splat
-    are not in `L` inside its body: if the collection is marked the whole result is marked, and if it is not,
-    its elements expose nothing. -/
-def vclean (L : List String) : Expr → Bool
-  | .lit v => tw false v
-  | .var x => !L.contains x
-  | .getAttr e _ => vclean L e
-  | .index e k => vclean L e && vclean L k
-  | .bin _ l r => vclean L l && vclean L r
-  | .un _ e => vclean L e
-  | .cond c t f => vclean L c && vclean L t && vclean L f
-  | .tuple es => vcleanList L es
-  | .object items => vcleanItems L items
-  | .forTuple kv vv coll val cond =>
-    vclean L coll && vclean (dropIter kv vv L) val &&
-      (match cond with | some c => vclean (dropIter kv vv L) c | none => true)
-  | .forObject kv vv coll key val cond _ =>
-    vclean L coll && vclean (dropIter kv vv L) key && vclean (dropIter kv vv L) val &&
-      (match cond with | some c => vclean (dropIter kv vv L) c | none => true)
-  | .splat anon src each => vclean L src && vclean (L.filter (· != anon)) each
-  | .template parts => vcleanList L parts
-  | .tjoin t => vclean L t
-  | .call _ args ex => vcleanList L args && (match ex with | some e => vclean L e | none => true)
-def vcleanList (L : List String) : List Expr → Bool
-  | [] => true
-  | e :: es => vclean L e && vcleanList L es
-def vcleanItems (L : List String) : List (Expr × Expr) → Bool
-  | [] => true
-  | (k, v) :: rest => vclean L k && vclean L v && vcleanItems L rest
-end
-
-mutual
-/-- `fclean L e`: no diagnostic of `e` echoes tainted content, provided that the variables outside `L` expose
-    no taint.  Inside the body of a `for` or splat the iteration variables are in `L` (the collection may be
-    marked at the top only, and then its elements are tainted and unmarked).  The only diagnostic with a
-    fragment is "Duplicate object key" of a non-grouping object `for`; it is harmless when
-    * the key expression is clean even if the iteration variables are not (`vclean (iter ++ L) key`), or
-    * the collection is clean and the key expression is clean given clean iteration variables: then either
-      the collection is marked (and the key is not echoed) or its elements expose nothing. -/
-def fclean (L : List String) : Expr → Bool
-  | .lit _ => true
-  | .var _ => true
-  | .getAttr e _ => fclean L e
-  | .index e k => fclean L e && fclean L k
-  | .bin _ l r => fclean L l && fclean L r
-  | .un _ e => fclean L e
-  | .cond c t f => fclean L c && fclean L t && fclean L f
-  | .tuple es => fcleanList L es
-  | .object items => fcleanItems L items
-  | .forTuple kv vv coll val cond =>
-    fclean L coll && fclean (iterNames kv vv ++ L) val &&
-      (match cond with | some c => fclean (iterNames kv vv ++ L) c | none => true)
-  | .forObject kv vv coll key val cond group =>
-    fclean L coll && fclean (iterNames kv vv ++ L) key && fclean (iterNames kv vv ++ L) val &&
-      (match cond with | some c => fclean (iterNames kv vv ++ L) c | none => true) &&
-      (group || vclean (iterNames kv vv ++ L) key || (vclean L coll && vclean (dropIter kv vv L) key))
-  | .splat anon src each => fclean L src && fclean (anon :: L) each
-  | .template parts => fcleanList L parts
-  | .tjoin t => fclean L t
-  | .call _ args ex => fcleanList L args && (match ex with | some e => fclean L e | none => true)
-def fcleanList (L : List String) : List Expr → Bool
-  | [] => true
-  | e :: es => fclean L e && fcleanList L es
-def fcleanItems (L : List String) : List (Expr × Expr) → Bool
-  | [] => true
-  | (k, v) :: rest => fclean L k && fclean L v && fcleanItems L rest
-end
-
-mutual
-/-- the simple syntactic condition: every literal is free of flags and no non-grouping object `for` occurs
-    (`inBody = true`) inside the body of a `for` or splat -/
-def simple (inBody : Bool) : Expr → Bool
-  | .lit v => flagFree v
-  | .var _ => true
-  | .getAttr e _ => simple inBody e
-  | .index e k => simple inBody e && simple inBody k
-  | .bin _ l r => simple inBody l && simple inBody r
-  | .un _ e => simple inBody e
-  | .cond c t f => simple inBody c && simple inBody t && simple inBody f
-  | .tuple es => simpleList inBody es
-  | .object items => simpleItems inBody items
-  | .forTuple _ _ coll val cond =>
-    simple inBody coll && simple true val && (match cond with | some c => simple true c | none => true)
-  | .forObject _ _ coll key val cond group =>
-    (group || !inBody) && simple inBody coll && simple true key && simple true val &&
-      (match cond with | some c => simple true c | none => true)
-  | .splat _ src each => simple inBody src && simple true each
-  | .template parts => simpleList inBody parts
-  | .tjoin t => simple inBody t
-  | .call _ args ex => simpleList inBody args && (match ex with | some e => simple inBody e | none => true)
-def simpleList (inBody : Bool) : List Expr → Bool
-  | [] => true
-  | e :: es => simple inBody e && simpleList inBody es
-def simpleItems (inBody : Bool) : List (Expr × Expr) → Bool
-  | [] => true
-  | (k, v) :: rest => simple inBody k && simple inBody v && simpleItems inBody rest
-end
-
-end HclModel.Proofs
